@@ -1319,6 +1319,7 @@ func (x *H) sectionImport(r *hx.Rng, scale int) {
 	}
 	x.run.Notes["import_cases"] = n
 	x.sectionImportKnownPrefix(r.Fork(11), scale)
+	x.sectionImportHistory(r.Fork(12), scale)
 }
 
 // 7b. batches that START WITH ALREADY-IMPORTED blocks (canonical, or a known side block) or with a known block and a valid new
@@ -1467,4 +1468,133 @@ func (x *H) sectionImportKnownPrefix(r *hx.Rng, scale int) {
 		}
 	}
 	x.run.Notes["import_known_prefix_cases"] = n
+}
+
+// 7c. offer histories: the verdict on a block whose parent is present must be the engine's verdict on (block, parent chain) —
+//     whatever the node was offered before. Valid blocks X1, X2, X3 on top of the head are first offered early (parent missing:
+//     "unknown ancestor"), or after a failed sibling, or repeatedly, and then offered in order. Judged directly: when
+//     Engine.VerifyHeader accepts the header against the current chain (bodies come from GenerateChain and are valid), InsertChain /
+//     InsertHeaderChain must accept it and the head must advance (kind `valid-block-refused`).
+func (x *H) sectionImportHistory(r *hx.Rng, scale int) {
+	cfgs := []cfgT{builtin()[5], builtin()[2], builtin()[4], builtin()[1]}
+	ctx := context.Background()
+	histories := []string{"control", "x2-early", "x3-x2-early", "x2-early-twice", "bad-sibling-then-x2-early", "x2-early-then-one-by-one", "x2x3-early-batch"}
+	n := 0
+	for i := 0; i < 12*scale; i++ {
+		c := cfgs[i%len(cfgs)]
+		cc := c.c
+		eng := aquahash.NewFaker()
+		gdb := aquadb.NewMemDatabase()
+		gspec := &core.Genesis{Config: cc}
+		genesis := gspec.MustCommit(gdb)
+		nMain := 2 + r.Intn(8)
+		if c.spec == "@testnet2" && r.Intn(2) == 0 {
+			nMain = 5 + r.Intn(16)
+		}
+		mainB, _ := core.GenerateChain(ctx, cc, genesis, eng, gdb, nMain, nil)
+		X, _ := core.GenerateChain(ctx, cc, mainB[len(mainB)-1], eng, gdb, 3, nil)
+		for hi, hist := range histories {
+			for _, blockMode := range []bool{true, false} {
+				db := aquadb.NewMemDatabase()
+				gspec.MustCommit(db)
+				bc, err := core.NewBlockChain(ctx, db, nil, cc, eng, vm.Config{})
+				if err != nil {
+					continue
+				}
+				if _, err := bc.InsertChain(mainB); err != nil {
+					x.run.Violate("setup", "setup-history", c.spec, err.Error())
+					hx.Safe(func() string { bc.Stop(); return "" })
+					continue
+				}
+				mode := "headers"
+				if blockMode {
+					mode = "blocks"
+				}
+				offer := func(bs ...*types.Block) (int, error) {
+					if blockMode {
+						return bc.InsertChain(types.Blocks(bs))
+					}
+					var hs []*types.Header
+					for _, b := range bs {
+						hs = append(hs, withVersion(cc, b.Header()))
+					}
+					return bc.InsertHeaderChain(hs, 1)
+				}
+				tag := fmt.Sprintf("history %s %s mode=%s main=%d", c.spec, hist, mode, nMain)
+				x.run.Current(tag)
+				early := []string{}
+				rec := func(idx int, err error) {
+					if err == nil {
+						early = append(early, "ok")
+					} else {
+						early = append(early, fmt.Sprintf("%d:%s", idx, strings.TrimPrefix(class(err), "err ")))
+					}
+				}
+				res := hx.Safe(func() string {
+					switch hi {
+					case 1:
+						rec(offer(X[1]))
+					case 2:
+						rec(offer(X[2]))
+						rec(offer(X[1]))
+					case 3:
+						rec(offer(X[1]))
+						rec(offer(X[1]))
+					case 4:
+						bad := withVersion(cc, X[0].Header())
+						bad.Extra = make([]byte, 33)
+						rec(offer(types.NewBlockWithHeader(bad).WithBody(X[0].Transactions(), X[0].Uncles())))
+						rec(offer(X[1]))
+					case 5:
+						rec(offer(X[1]))
+					case 6:
+						rec(offer(X[1], X[2]))
+					}
+					return ""
+				})
+				// now in order; before each step the engine's own verdict on the header against the current chain
+				final := []string{}
+				ok := res == ""
+				steps := [][]*types.Block{{X[0], X[1], X[2]}}
+				if hi == 5 {
+					steps = [][]*types.Block{{X[0]}, {X[1]}, {X[2]}}
+				}
+				for _, st := range steps {
+					engineOK := eng.VerifyHeader(bc, withVersion(cc, st[0].Header()), true) == nil
+					var idx int
+					var ierr error
+					r2 := hx.Safe(func() string { idx, ierr = offer(st...); return "" })
+					if r2 != "" {
+						final = append(final, "panic")
+						ok = false
+						continue
+					}
+					if ierr == nil {
+						final = append(final, "ok")
+					} else {
+						final = append(final, fmt.Sprintf("%d:%s", idx, strings.ReplaceAll(strings.TrimPrefix(class(ierr), "err "), " ", "_")))
+					}
+					if engineOK && ierr != nil {
+						ok = false
+					}
+				}
+				last := X[2]
+				headOK := bc.CurrentHeader().Hash() == last.Hash()
+				if blockMode {
+					headOK = headOK && bc.CurrentBlock().Hash() == last.Hash()
+				}
+				x.run.Count("history[" + mode + "," + hist + "]:" + strings.Join(early, ",") + "=>" + strings.Join(final, ","))
+				if !ok || !headOK {
+					x.run.Violate("valid-block-refused", "valid-block-refused history "+mode,
+						map[string]string{"config": c.spec, "mode": mode, "history": hist, "early": strings.Join(early, ","), "in-order": strings.Join(final, ","),
+							"blocks": renderList([]*types.Header{withVersion(cc, X[0].Header()), withVersion(cc, X[1].Header()), withVersion(cc, X[2].Header())})},
+						fmt.Sprintf("%s import after history %q (early offers: %s): in-order import of three valid blocks gave %s, head at the last block: %v; Engine.VerifyHeader accepts each header once its parent is present, so the verdict must not depend on earlier offers",
+							mode, hist, strings.Join(early, ","), strings.Join(final, ","), headOK))
+				}
+				n++
+				hx.Safe(func() string { bc.Stop(); return "" })
+			}
+		}
+	}
+	x.run.Notes["import_history_cases"] = n
 }
